@@ -6,22 +6,29 @@ Soundness of `checkRel` in mode ALL on first-order cycle-free types of an ordere
 types the stack is irrelevant). The assumption set may contain *pending* pairs (the keys inserted
 by the union arms before their variants are checked); on an ordered table every sub-check is about
 a pair with a strictly smaller id sum, so a pending pair is never the one looked up:
-`Inv T asm m` — every assumed pair is valid or has id sum ≥ m.
+`Inv T μ asm m` — every assumed pair is valid or has id sum ≥ m.
 -/
 namespace QM.Types
 
 def Valid (T : Table) (a b : Nat) : Prop := ∀ st st' v, inh T st a v → inh T st' b v
 
-def Inv (T : Table) (asm : Asm) (m : Nat) : Prop := ∀ p ∈ asm, Valid T p.1 p.2 ∨ m ≤ p.1 + p.2
+/-- `μ` measures a type id; a sub-check is always about a pair with a strictly smaller `μ`-sum
+(`ChildLt`): ids themselves on an ordered table, the first-order rank on any table. -/
+def Inv (T : Table) (μ : Nat → Nat) (asm : Asm) (m : Nat) : Prop :=
+  ∀ p ∈ asm, Valid T p.1 p.2 ∨ m ≤ μ p.1 + μ p.2
+
+/-- the children of a first-order type are `μ`-smaller than the type -/
+def ChildLt (T : Table) (μ : Nat → Nat) : Prop :=
+  ∀ {t : Nat} {ty : Ty}, T.types[t]? = some ty → FO T t → ∀ c ∈ ty.children T, μ c < μ t
 
 /-- everything new in `asm'` is valid -/
 def Post (T : Table) (asm asm' : Asm) : Prop := ∀ p ∈ asm', p ∈ asm ∨ Valid T p.1 p.2
 
-theorem Inv.mono {T : Table} {asm : Asm} {m m' : Nat} (h : Inv T asm m) (hm : m' ≤ m) : Inv T asm m' :=
+theorem Inv.mono {T : Table} {μ : Nat → Nat} {asm : Asm} {m m' : Nat} (h : Inv T μ asm m) (hm : m' ≤ m) : Inv T μ asm m' :=
   fun p hp => (h p hp).imp id (fun h => Nat.le_trans hm h)
 
-theorem Inv.post {T : Table} {asm asm' : Asm} {m : Nat} (h : Inv T asm m) (hp : Post T asm asm') :
-    Inv T asm' m :=
+theorem Inv.post {T : Table} {μ : Nat → Nat} {asm asm' : Asm} {m : Nat} (h : Inv T μ asm m) (hp : Post T asm asm') :
+    Inv T μ asm' m :=
   fun p hp' => (hp p hp').elim (h p) Or.inl
 
 theorem Post.refl (T : Table) (asm : Asm) : Post T asm asm := fun _ hp => Or.inl hp
@@ -29,8 +36,8 @@ theorem Post.refl (T : Table) (asm : Asm) : Post T asm asm := fun _ hp => Or.inl
 theorem Post.trans {T : Table} {a b c : Asm} (h1 : Post T a b) (h2 : Post T b c) : Post T a c :=
   fun p hp => (h2 p hp).elim (h1 p) Or.inr
 
-theorem Inv.cons {T : Table} {asm : Asm} {a b : Nat} (h : Inv T asm (a + b + 1)) :
-    Inv T ((a, b) :: asm) (a + b) := by
+theorem Inv.cons {T : Table} {μ : Nat → Nat} {asm : Asm} {a b : Nat}
+    (h : Inv T μ asm (μ a + μ b + 1)) : Inv T μ ((a, b) :: asm) (μ a + μ b) := by
   intro p hp
   rcases List.mem_cons.mp hp with rfl | hp
   · exact Or.inr (Nat.le_refl _)
@@ -40,9 +47,9 @@ theorem Inv.cons {T : Table} {asm : Asm} {a b : Nat} (h : Inv T asm (a + b + 1))
 def Good (T : Table) (res : Res) (asm : Asm) (P : Prop) : Prop :=
   ∀ r asm', res = some (r, asm') → Post T asm asm' ∧ (r = true → P)
 
-theorem allS_good {α : Type} (T : Table) {f : Asm → α → Res} {R : α → Prop} {m : Nat} :
-    ∀ (l : List α), (∀ x ∈ l, ∀ s, Inv T s m → Good T (f s x) s (R x)) →
-      ∀ s, Inv T s m → Good T (allS f l s) s (∀ x ∈ l, R x) := by
+theorem allS_good {α : Type} (T : Table) {μ : Nat → Nat} {f : Asm → α → Res} {R : α → Prop} {m : Nat} :
+    ∀ (l : List α), (∀ x ∈ l, ∀ s, Inv T μ s m → Good T (f s x) s (R x)) →
+      ∀ s, Inv T μ s m → Good T (allS f l s) s (∀ x ∈ l, R x) := by
   intro l
   induction l with
   | nil =>
@@ -72,9 +79,9 @@ theorem allS_good {α : Type} (T : Table) {f : Asm → α → Res} {R : α → P
         · exact hx.2 rfl
         · exact hrest.2 hr y hy
 
-theorem anyS_good {α : Type} (T : Table) {f : Asm → α → Res} {R : α → Prop} {m : Nat} :
-    ∀ (l : List α), (∀ x ∈ l, ∀ s, Inv T s m → Good T (f s x) s (R x)) →
-      ∀ s, Inv T s m → Good T (anyS f l s) s (∃ x ∈ l, R x) := by
+theorem anyS_good {α : Type} (T : Table) {μ : Nat → Nat} {f : Asm → α → Res} {R : α → Prop} {m : Nat} :
+    ∀ (l : List α), (∀ x ∈ l, ∀ s, Inv T μ s m → Good T (f s x) s (R x)) →
+      ∀ s, Inv T μ s m → Good T (anyS f l s) s (∃ x ∈ l, R x) := by
   intro l
   induction l with
   | nil =>
@@ -120,8 +127,8 @@ theorem Good.imp {T : Table} {res : Res} {asm : Asm} {P Q : Prop} (h : Good T re
   fun r asm' hr => ⟨(h r asm' hr).1, fun hrt => hPQ ((h r asm' hr).2 hrt)⟩
 
 /-- the recursive call is good on every first-order pair with id sum below `bound` -/
-def RecGood (T : Table) (rec : Rec) (bound : Nat) : Prop :=
-  ∀ asm st x y, FO T x → FO T y → x + y < bound → Inv T asm (x + y + 1) →
+def RecGood (T : Table) (μ : Nat → Nat) (rec : Rec) (bound : Nat) : Prop :=
+  ∀ asm st x y, FO T x → FO T y → μ x + μ y < bound → Inv T μ asm (μ x + μ y + 1) →
     Good T (rec asm st x y) asm (Valid T x y)
 
 /-! ### semantic steps -/
